@@ -782,11 +782,9 @@ func TestGen(t *testing.T) {
 
 	styles := []string{"Plain", "Submit", "Pred"}
 	if hx.Thorough() {
-		for _, st := range styles {
-			g.exhaustive(st, 3, 2, false)
-		}
-		g.exhaustive("Plain", 2, 2, true)
-		n0 := len(g.cases)
+		g.exhaustive("Plain", 3, 2, true) // the full product
+		g.exhaustive("Submit", 3, 2, true)
+		g.exhaustive("Pred", 3, 2, false) // 7 outcomes per node: fallback group reduced when it cannot matter
 		for _, st := range styles { // cancellation in every gap of every <= 2+1 run
 			h := &gen{r: g.r}
 			h.exhaustive(st, 2, 1, true)
@@ -794,7 +792,6 @@ func TestGen(t *testing.T) {
 				g.withCancels(b, "cancel")
 			}
 		}
-		_ = n0
 		g.random(hx.IntEnv("VERIF_N", 6000), 6, 4, false, "random")
 		g.random(3000, 3, 2, true, "ties")
 	} else {
